@@ -682,7 +682,8 @@ func (g *FuncGen) execAppend(c *ssa.CallCommon, v ssa.Value, pos token.Pos) {
 	st := c.Args[0].Type().Underlying().(*types.Slice)
 	et := st.Elem()
 	if _, ok := isStruct(et); ok {
-		unsup("append to slice of structs")
+		g.execAppendStructs(c, v, et)
+		return
 	}
 	k := g.sc.elemComp(et)
 	esort := g.sc.sortOf(et)
@@ -958,4 +959,65 @@ func (g *FuncGen) execGhost(at string, cx *SpecCtx) {
 		v := cx.eval(gs.Value)
 		g.update(locs[0].comp, fmt.Sprintf("(store %s %s %s)", g.get(g.st, locs[0].comp), locs[0].ref, v.t))
 	}
+}
+
+// structLeaf is one scalar leaf of a struct element type: its heap component and the path from the
+// element reference to the object holding the field.
+type structLeaf struct {
+	comp string
+	ft   types.Type
+	wrap func(string) string
+}
+
+func (g *FuncGen) structLeaves(t types.Type, wrap func(string) string, out *[]structLeaf) {
+	st, _ := isStruct(t)
+	for i := 0; i < st.NumFields(); i++ {
+		ft := st.Field(i).Type()
+		if _, ok := isStruct(ft); ok {
+			ii, tt, w := i, t, wrap
+			g.structLeaves(ft, func(ref string) string {
+				r, _ := g.sc.fldRef(tt, ii, w(ref))
+				return r
+			}, out)
+		} else {
+			*out = append(*out, structLeaf{g.sc.fieldCompReg(t, i), ft, wrap})
+		}
+	}
+}
+
+// execAppendStructs: append on a slice whose elements are structs.  Elements are interior objects of
+// the backing array (elemRef), so the copy is stated per leaf field component.
+func (g *FuncGen) execAppendStructs(c *ssa.CallCommon, v ssa.Value, et types.Type) {
+	s := g.val(c.Args[0])
+	t := g.val(c.Args[1])
+	n := g.defConst("app_n", "Int", fmt.Sprintf("(s-len %s)", t))
+	tarr := g.defConst("app_sarr", "Int", fmt.Sprintf("(s-arr %s)", t))
+	toff := g.defConst("app_soff", "Int", fmt.Sprintf("(s-off %s)", t))
+	inplace := g.defConst("app_inplace", "Bool", fmt.Sprintf("(and (<= (+ (s-len %s) %s) (s-cap %s)) (not (= (s-arr %s) 0)))", s, n, s, s))
+	fr := g.def("ref", "Int", g.alloc())
+	g.update("alloc", fmt.Sprintf("(+ %s 1)", g.alloc()))
+	rarr := g.defConst("app_arr", "Int", fmt.Sprintf("(ite %s (s-arr %s) %s)", inplace, s, fr))
+	roff := g.defConst("app_off", "Int", fmt.Sprintf("(ite %s (s-off %s) 0)", inplace, s))
+	newcap := g.declare("app_cap", "Int")
+	slen := g.defConst("app_len", "Int", fmt.Sprintf("(s-len %s)", s))
+	soff := g.defConst("app_doff", "Int", fmt.Sprintf("(s-off %s)", s))
+	sarr := g.defConst("app_darr", "Int", fmt.Sprintf("(s-arr %s)", s))
+	g.assume(fmt.Sprintf("(ite %s (= %s (s-cap %s)) (>= %s (+ %s %s)))", inplace, newcap, s, newcap, slen, n))
+	var leaves []structLeaf
+	g.structLeaves(et, func(r string) string { return r }, &leaves)
+	for _, lf := range leaves {
+		H := g.get(g.st, lf.comp)
+		N := g.declare("app_new", fmt.Sprintf("(Array Int %s)", g.sc.sortOf(lf.ft)))
+		dst, _ := g.sc.elemRef(et, rarr, "k!")
+		src1, _ := g.sc.elemRef(et, sarr, fmt.Sprintf("(+ %s (- k! %s))", soff, roff))
+		src2, _ := g.sc.elemRef(et, tarr, fmt.Sprintf("(+ %s (- k! (+ %s %s)))", toff, roff, slen))
+		g.assume(fmt.Sprintf("(forall ((k! Int)) (! (=> (and (<= %s k!) (< k! (+ %s %s))) (= (select %s %s) (select %s %s))) :pattern (%s)))", roff, roff, slen, N, lf.wrap(dst), H, lf.wrap(src1), dst))
+		g.assume(fmt.Sprintf("(forall ((k! Int)) (! (=> (and (<= (+ %s %s) k!) (< k! (+ %s %s %s))) (= (select %s %s) (select %s %s))) :pattern (%s)))", roff, slen, roff, slen, n, N, lf.wrap(dst), H, lf.wrap(src2), dst))
+		// frame: objects that are not elements of the result array keep their value; in place, elements
+		// outside the appended range do too
+		g.assume(fmt.Sprintf("(forall ((r! Int)) (! (=> (not (= (rootref r!) %s)) (= (select %s r!) (select %s r!))) :pattern ((select %s r!))))", rarr, N, H, N))
+		g.assume(fmt.Sprintf("(=> %s (forall ((k! Int)) (! (=> (or (< k! (+ %s %s)) (>= k! (+ %s %s %s))) (= (select %s %s) (select %s %s))) :pattern (%s))))", inplace, soff, slen, soff, slen, n, N, lf.wrap(dst), H, lf.wrap(dst), dst))
+		g.update(lf.comp, N)
+	}
+	g.vals[v] = g.def("v:"+v.Name(), "Slice", fmt.Sprintf("(mk-slice %s %s (+ %s %s) %s)", rarr, roff, slen, n, newcap))
 }
